@@ -242,6 +242,13 @@ def symbolic_comprehension(interp, e, fr, it, what):
                 raise Undecided('dict comprehension with non-int values')
             return VKeyMap(w, mem2, sub(vv.z))
         return VKeySet(w, mem2, as_lists=(kv.kind == 'path'))
+    if it.kind == 'graph' and what == 'list' and not g.ifs and isinstance(g.target, _ast.Name):
+        # [f(n) for n in G]: one entry per node; the entry itself (an attribute dict with the id) is kept opaque
+        from .loops import VBag
+        NodeIn = it.g['NodeIn']
+        entry = fresh_fun('node_entry', Node, Obj)
+        interp.ctx.notes.append('node entries of a comprehension over the graph are opaque')
+        return VBag([Node], lambda a: NodeIn[a], lambda a: VOpaque(entry(a), 'node-entry'), note='one entry per node')
     if it.kind == 'nodedict' and what == 'list' and not g.ifs and isinstance(g.target, _ast.Name) \
             and isinstance(e.elt, _ast.Name) and e.elt.id == g.target.id:
         # [k for k in self._node]: the nodes, each once, in unspecified order (a snapshot of the key set)
